@@ -47,28 +47,53 @@ Proof.
     unfold Lz4Model.compress. rewrite Ec. exact Ed.
 Qed.
 
+Lemma own_bytes codec : own_codec codec -> forall b, is_bytes b -> len b < 2 ^ 31 -> is_bytes (codec_compress codec b).
+Proof.
+  intros Ho b Hb Hl. destruct Ho as [-> | [-> | [-> | ->]]].
+  - exact Hb.
+  - unfold codec_compress. cbn [Z.eqb E_CARQUET_COMPRESSION_SNAPPY Pos.eqb].
+    destruct (snappy_compress_valid_thm _ (hash_look snappy_hash b) (hash_ins snappy_hash b) (PositiveMap.empty N) b Hb)
+      as (out & Ec & _ & Bo & _); [unfold nlen; unfold len in Hl; lia|].
+    unfold SnappyModel.compress. rewrite Ec. exact Bo.
+  - unfold codec_compress.
+    change (Z.eqb E_CARQUET_COMPRESSION_LZ4 E_CARQUET_COMPRESSION_SNAPPY) with false.
+    change (Z.eqb E_CARQUET_COMPRESSION_LZ4 E_CARQUET_COMPRESSION_LZ4) with true. cbn [orb].
+    destruct (lz4_compress_valid_thm _ (hash_look lz4_hash b) (hash_ins lz4_hash b) (PositiveMap.empty N) b
+                (Lz4Model.compress_bound (N.of_nat (length b))) Hb) as (out & Ec & _ & Bo & _); [unfold nlen; lia|].
+    unfold Lz4Model.compress. rewrite Ec. exact Bo.
+  - unfold codec_compress.
+    change (Z.eqb E_CARQUET_COMPRESSION_LZ4_RAW E_CARQUET_COMPRESSION_SNAPPY) with false.
+    change (Z.eqb E_CARQUET_COMPRESSION_LZ4_RAW E_CARQUET_COMPRESSION_LZ4) with false.
+    change (Z.eqb E_CARQUET_COMPRESSION_LZ4_RAW E_CARQUET_COMPRESSION_LZ4_RAW) with true. cbn [orb].
+    destruct (lz4_compress_valid_thm _ (hash_look lz4_hash b) (hash_ins lz4_hash b) (PositiveMap.empty N) b
+                (Lz4Model.compress_bound (N.of_nat (length b))) Hb) as (out & Ec & _ & Bo & _); [unfold nlen; lia|].
+    unfold Lz4Model.compress. rewrite Ec. exact Bo.
+Qed.
+
 (** C01 for UNCOMPRESSED, SNAPPY, LZ4 and LZ4_RAW files: only the Thrift round trips remain as premises *)
 Theorem write_read_roundtrip_own_codecs :
   forall (header : page_hdr -> list N) (parse_header : list N -> res (hdr_core * N))
          (footer : file_meta -> list N) (parse_footer : list N -> res file_meta) (verify : bool)
          (sch : list column) (opts : options),
   own_codec (o_codec opts) ->
-  (forall h rest, parse_header (header h ++ rest) = Ok (core_of h, len (header h))) ->
-  (forall h, len (header h) <= 256) -> (forall h, 0 < len (header h)) ->
-  (forall m, parse_footer (footer m) = Ok m) ->
+  (forall h rest, hdr_ok h -> parse_header (header h ++ rest) = Ok (core_of h, len (header h))) ->
+  (forall h, hdr_ok h -> len (header h) <= 256) -> (forall h, hdr_ok h -> 0 < len (header h)) ->
+  (forall m, footer_dom m -> parse_footer (footer m) = Ok m) ->
   forallb column_ok sch = true ->
   forall ops t, table_of sch ops = Some t ->
+  schema_fits sch = true -> N.of_nat (S (newrgs ops)) <= MAX_ROW_GROUPS ->
   exists sts w, run_writer (codec_compress (o_codec opts)) header footer sch opts ops = Ok (sts, w, true)
     /\ all_ok sts = true /\
     (Forall (fun g => Forall small_chunk (rg_chunks g)) (f_groups w) ->
-     len (footer (mkfm footer_version sch (f_total_rows w) (f_groups w) (created_by opts))) < 2 ^ 32 ->
+     meta_small (metadata_of w) -> len (footer (metadata_of w)) < 2 ^ 32 ->
      exists r, read_all (o_codec opts) (codec_decompress (o_codec opts)) parse_header parse_footer verify (f_out w) = Ok r
                /\ drop_empty r = result_of_table t).
 Proof.
-  intros header parse_header footer parse_footer verify sch opts Ho H1 H2 H3 H4 Hs ops t Ht.
+  intros header parse_header footer parse_footer verify sch opts Ho H1 H2 H3 H4 Hs ops t Ht Hf Hl.
   apply (write_read_roundtrip (codec_compress (o_codec opts)) (codec_decompress (o_codec opts))
            header parse_header footer parse_footer verify sch opts
-           (own_uncompressed (o_codec opts)) (own_roundtrip (o_codec opts) Ho) H1 H2 H3 H4 Hs ops t Ht).
+           (own_uncompressed (o_codec opts)) (own_roundtrip (o_codec opts) Ho) (own_bytes (o_codec opts) Ho)
+           H1 H2 H3 H4 Hs ops t Ht Hf Hl).
 Qed.
 
 (** The conclusion of the round-trip theorem evaluated with the CONCRETE encoders and parsers (carquet's Thrift
